@@ -320,8 +320,8 @@ fn run_case(case: &Case, scratch: Option<&Path>) -> Outcome {
         }
     };
     let mut counted_expect: Option<usize> = None;
-    // set when the parser got over a hard read error without losing or inventing anything
-    let mut transparent_hard = false;
+    // set once the parser has delivered an error item after a hard read error fired
+    let mut failure_reported = false;
     while i < max_calls {
         if count_after == Some(out.items) && ei <= expected.len() {
             // finish through Iterator::count(): every remaining line yields exactly one item
@@ -337,7 +337,7 @@ fn run_case(case: &Case, scratch: Option<&Path>) -> Outcome {
         ei += skip; // the skipped items are not observed; the one returned must be the (ei+skip)-th
         let hard_at = shared.borrow().hard_fired_at_call;
         hh = hash_combine(hh, hash_bytes(format!("{:?}", got).as_bytes()));
-        let after_hard = hard_at.map(|h| i >= h).unwrap_or(false) && !transparent_hard;
+        let fault_fired = hard_at.map(|h| i >= h).unwrap_or(false);
         match &got {
             Got::Rec { .. } => out.delivered_ok += 1,
             Got::Err { line, .. } => {
@@ -346,46 +346,44 @@ fn run_case(case: &Case, scratch: Option<&Path>) -> Outcome {
             }
             _ => {}
         }
-        if after_hard {
-            // C17 says nothing about what the items look like once a read has failed, so the failing
-            // item and everything after it are recorded for the reader of the evidence, not judged
-            // (DESIGN §5.4) - with one exception at the failing call itself: the failure must not be
-            // swallowed. Either the parser recovers transparently (the item is exactly the row that
-            // is due: a correct retry; judging then simply continues), or it reports an error item.
-            // An accepted row that is not the row in the file, or a silent end of the stream, is
-            // a row "accepted" from a truncated line.
-            if hard_at == Some(i) {
-                let due_ok = ei < expected.len() && !expected[ei].optional && judge(&expected[ei].exp, &got, expected[ei].line).is_none()
-                    && matches!(expected[ei].exp, Expect::Rec { .. });
-                if due_ok {
-                    transparent_hard = true;
-                } else if !matches!(got, Got::Err { .. }) && !case.file.has_corruption() {
-                    let (c, t) = row_of(ei);
-                    let kind = if got == Got::Panic { "panic" } else { "read_failure_swallowed" };
-                    out.violation = Some(Violation { kind: kind.into(), index: i, line: expected.get(ei).map(|e| e.line).unwrap_or(0),
-                        expected: json!("an error item for the failed read, or exactly the row that is due"), got: got_to_json(&got), row_class: c, row_text: t });
-                    break;
+        if fault_fired && failure_reported {
+            // C17 says nothing about what the items look like once a read failure has been reported:
+            // recorded for the reader of the evidence, not judged (DESIGN §5.4)
+            if let Got::Rec { .. } = got {
+                out.rows_after_hard_error += 1;
+                let in_file = expected.iter().any(|e| matches!(e.exp, Expect::Rec { .. }) && judge(&e.exp, &got, 0).is_none());
+                if !in_file {
+                    out.of_which_not_in_file += 1;
                 }
             }
-            if !transparent_hard {
-                if hard_at != Some(i) {
-                    if let Got::Rec { .. } = got {
-                        out.rows_after_hard_error += 1;
-                        let in_file = expected.iter().any(|e| matches!(e.exp, Expect::Rec { .. }) && judge(&e.exp, &got, 0).is_none());
-                        if !in_file {
-                            out.of_which_not_in_file += 1;
-                        }
-                    }
+            if got == Got::None || got == Got::Panic {
+                if got == Got::Panic {
+                    let (c, t) = row_of(ei);
+                    out.violation = Some(Violation { kind: "panic".into(), index: i, line: 0, expected: json!("no panic"), got: json!("panic"), row_class: c, row_text: t });
                 }
-                if got == Got::None || got == Got::Panic {
-                    if got == Got::Panic {
-                        let (c, t) = row_of(ei);
-                        out.violation = Some(Violation { kind: "panic".into(), index: i, line: 0, expected: json!("no panic"), got: json!("panic"), row_class: c, row_text: t });
-                    }
-                    break;
+                break;
+            }
+            i += 1;
+            continue;
+        }
+        if fault_fired && got != Got::Panic {
+            // A read has failed and the parser has not said so yet. It may still deliver rows it
+            // had already read, or recover transparently (a correct retry), or report the failure
+            // now or - with look-ahead - a call or two later. What it must not do is swallow the
+            // failure: accept a row that is not the row that is due, or end the stream with rows
+            // outstanding, without ever having delivered an error item.
+            let due_ok = ei < expected.len() && judge(&expected[ei].exp, &got, expected[ei].line).is_none();
+            let clean_end = got == Got::None && ei >= expected.len();
+            if !due_ok && !clean_end {
+                if matches!(got, Got::Err { .. }) {
+                    failure_reported = true;
+                    i += 1;
+                    continue;
                 }
-                i += 1;
-                continue;
+                let (c, t) = row_of(ei);
+                out.violation = Some(Violation { kind: "read_failure_swallowed".into(), index: i, line: expected.get(ei).map(|e| e.line).unwrap_or(0),
+                    expected: json!("the row that is due, or an error item reporting the failed read"), got: got_to_json(&got), row_class: c, row_text: t });
+                break;
             }
         }
         // corrupted lines: the item belongs to the corrupted line if it is an I/O-style error
